@@ -2042,4 +2042,38 @@ theorem page_counter_reset (r : Int) (n : Nat) :
       | zero => simp [counterValue, getStack_setStack_same]
       | succ j => simpa using hi j (by simpa using hi')
 
+
+/-! ## rule 3 on the corner boxes — which flag `make_margin_boxes` passes for which axis -/
+
+/-- Rule 3 on corner boxes: a generated corner box whose width and horizontal margins are all given
+keeps its width and the margin on the side of the page area — `margin-right` for the two left corners,
+`margin-left` for the two right corners (`'left' in at_keyword`); likewise vertically with
+`'top' in at_keyword`. -/
+theorem corner_box_over_constrained (row : CornerRow) (g : PageGeom) (styles : List MStyle) (p : Placed)
+    (h : cornerBox row g styles = .ok [p]) :
+    let m := makeBox (findStyle styles row.kw) (g.eval row.cbW) (g.eval row.cbH)
+    (∀ w ml mr, m.width = some w → m.ml = some ml → m.mr = some mr →
+        p.width = w ∧ (if row.isLeft then p.mr = mr else p.ml = ml)) ∧
+    (∀ ht mt mb, m.height = some ht → m.mt = some mt → m.mb = some mb →
+        p.height = ht ∧ (if row.isTop then p.mb = mb else p.mt = mt)) := by
+  unfold cornerBox at h
+  simp only at h
+  split at h
+  · simp at h
+  · split at h
+    · cases h
+    · rename_i rv hrv
+      split at h
+      · cases h
+      · rename_i rh hrh
+        simp only [Except.ok.injEq, List.cons.injEq, and_true] at h
+        subst h
+        constructor
+        · intro w ml mr hw hml hmr
+          simp only [MBox.horizontal, hw, hml, hmr] at hrh
+          exact fixed_dimension_over_constrained _ _ _ _ _ _ _ hrh
+        · intro ht mt mb hh hmt hmb
+          simp only [MBox.vertical, hh, hmt, hmb] at hrv
+          exact fixed_dimension_over_constrained _ _ _ _ _ _ _ hrv
+
 end Wp.C14
